@@ -2590,6 +2590,13 @@ private:
   {
     const int minVer = configuredMin < TLS1_2_VERSION ? TLS1_2_VERSION : configuredMin;
     ::SSL_CTX_set_min_proto_version(ctx, minVer);
+    // A number that is not a TLS version of this library (e.g. 0x0305, or a DTLS
+    // number such as 0xFEFD) is rejected or silently ignored by OpenSSL, which
+    // would leave the context with NO minimum at all: read it back and fall back.
+    if (::SSL_CTX_get_min_proto_version(ctx) < TLS1_2_VERSION)
+    {
+      ::SSL_CTX_set_min_proto_version(ctx, TLS1_2_VERSION);
+    }
   }
 
   bool initTls()
